@@ -81,10 +81,10 @@ def run(prop, tier, extra=None):
                "container_rule": "every sequence of %d add / add-with-spoofed-length / remove / serialize operations over 11 container "
                                  "kinds (TCP, IPv4, IPv6 extension headers, ICMPv6, DHCP, DHCPv6, 802.11 tagged parameters, PPPoE tags, "
                                  "RTP CSRC list, LLC frame formats, MLDv2 records), checked after every operation" % (3 if quick else 4)}
-    if prop in ("C05", "C02"):
+    if prop in ("C05", "C02", "C04"):
         # every other layer class: catalogue compositions.  C05: read by the extended dissector (Stack2);
         # C02: size-exactness and the region monitor on the same compositions
-        cat, g4 = vlib.tlc_generate("wire/CatGen", ("CatGen_C02.cfg" if quick else "CatGen_C02_t.cfg") if prop == "C02" else ("CatGen.cfg" if quick else "CatGen_t.cfg"), timeout=900)
+        cat, g4 = vlib.tlc_generate("wire/CatGen", ("CatGen_%s.cfg" % prop if quick else "CatGen_%s_t.cfg" % prop) if prop in ("C02", "C04") else ("CatGen.cfg" if quick else "CatGen_t.cfg"), timeout=900)
         cat = sorted({vlib.canon_hash(s): s for s in cat}.values(), key=lambda s: (s["id"], s["rep"]))
         p3 = vlib.Pipeline(prop, "wire_cat", "wire/CatTrace", "CatTrace_%s.cfg" % prop)
         p3.push(cat, "cat", timeout=3000)
